@@ -59,4 +59,22 @@ theorem copy_leaves_tracking_untouched (cfg : Cfg) (side : Side) (name : Path) (
     (src : WHandle) (w : World) : (copyFile cfg side name info src w).1.infos = w.infos :=
   copyFile_keeps cfg side name info src w
 
+/-- T08.3 (link-free fragment) "the failure does not corrupt the transaction": whatever a fault
+plan did to the operations of a covered history — any primitive on either filesystem failing, any
+number of times — once the filesystems are healthy again Rollback restores every entry of the
+base below its root.  (OS model behind two PrefixFS layers; `Covered` as in Props.C01.) -/
+theorem later_rollback_still_restores_linkfree_partial (bk kk : Key) (hbk : PKey bk) (hkk : PKey kk)
+    (hne1 : bk ≠ []) (hne2 : kk ≠ []) (hd1 : ¬ bk <+: kk) (hd2 : ¬ kk <+: bk)
+    (w : World) (hg : OSGood bk kk w.fs) (hinfos : w.infos = []) (ops : List Op)
+    (hcov : CoveredHist (osCfg bk kk) (osSim bk kk hbk hkk hne1 hne2 hd1 hd2) w ops) :
+    ∀ k, k ≠ [] →
+      ((rollback (osCfg bk kk) { runOps (osCfg bk kk) w ops with faults := [] }).1.fs.get (bk ++ k)).map eraseMt
+        = (w.fs.get (bk ++ k)).map eraseMt :=
+  tx_restores_after_faults (S := osSim bk kk hbk hkk hne1 hne2 hd1 hd2) hg hinfos ops hcov
+
+/-- non-vacuity: a fault plan that actually fires (the first `OpenFile` on the backup fails) is an
+admissible world for the theorem above -/
+example : (({ fs := exDisk, faults := [⟨⟨.backup, "openfile", ["/f".toList, "578".toList, "420".toList]⟩, 0⟩] } : World).faults ≠ []) := by
+  simp
+
 end Props.C08
